@@ -20,6 +20,8 @@ EXPLANATION = (
     'justified (J2/J3) and stage-confined.  Known finding F10: the clip scale is computed from local shards only.  Equality with the '
     'unsharded computation as values is not decided.')
 
+NOT_DECIDED = 'equality with the unsharded computation as values'
+
 
 def run(ctx: Ctx) -> None:
     ctx.do(TR.rule_gpt_layer)
